@@ -41,6 +41,7 @@ type Field struct {
 	Toks   []Tok
 	Syn    []SynDef
 	Vec    *VecDef
+	Shape  []byte // geo-shape field: the encoded shape (an extra doc value of the document, see PatchShapes)
 }
 type Doc struct {
 	Comps  []Field
@@ -151,6 +152,12 @@ func (a *apiSynField) IterateSynonyms(visitor func(term string, synonyms []strin
 	}
 }
 
+// apiGeoField is a geo-shape field: the builder adds its encoded shape to the field's doc values.
+type apiGeoField struct{ apiField }
+
+func (a *apiGeoField) GeoShape() (index.GeoJSON, error) { return nil, nil }
+func (a *apiGeoField) EncodedShape() []byte             { return a.f.Shape }
+
 type apiVecField struct{ apiField }
 
 func (a *apiVecField) Vector() []float32         { return a.f.Vec.Data }
@@ -232,6 +239,8 @@ func (b Batch) Fresh() []index.Document {
 				ad.fields = append(ad.fields, &apiSynField{apiField{f, mkTFs(f)}})
 			case f.Vec != nil:
 				ad.fields = append(ad.fields, &apiVecField{apiField{f, mkTFs(f)}})
+			case f.Shape != nil:
+				ad.fields = append(ad.fields, &apiGeoField{apiField{f, mkTFs(f)}})
 			default:
 				ad.fields = append(ad.fields, &apiField{f, mkTFs(f)})
 			}
